@@ -192,7 +192,7 @@ pub fn run(tier: Tier, seed: u64) -> Report {
     let r = run_pbt(
         "scripts",
         seed,
-        tier.pick(1_500, 60_000),
+        tier.pick(3_000, 100_000),
         || proptest::strategy::Strategy::boxed(sets::script(40, true)),
         check_script,
         sets::script_json,
